@@ -2,6 +2,7 @@
 //! run against the real crate; the same lines are evaluated by the extracted model.
 
 use crate::hist::{err_name, panic_class};
+#[cfg(feature = "parallel")]
 use matreex::parallel::*;
 use matreex::{Error, Matrix, Order};
 use std::alloc::{GlobalAlloc, Layout, System};
@@ -168,7 +169,9 @@ fn mapfam<S: Default + Clone + Send + Sync, U: Default + Send>(which: i128, size
             std::mem::forget(rhs);
             r
         }
+        #[cfg(feature = "parallel")]
         6 => shape_obs(m.par_map(|_| U::default())),
+        #[cfg(feature = "parallel")]
         7 => {
             let r = shape_obs(m.par_map_ref(|_| U::default()));
             std::mem::forget(m);
